@@ -17,6 +17,7 @@ Next ==
           \/ \E s \in -1..m.max : Len(hist) % 5 = 0 /\ (Do("Reserve", s, 0, OpReserve(m, s)) \/ Do("Leave", s, 0, OpLeave(m, s)))
           \/ Do("Next", -1, 0, OpNext(m))
           \/ Do("Next", -1, 0, OpNext(m)) /\ Len(hist) % 2 = 0
+          \/ Len(hist) % 17 = 0 /\ Do("Reset", -1, 0, OpReset(m))
 Spec == Init /\ [][Next]_<<m, hist, np>>
 Dump == Len(hist) >= 55 => PrintT(<<"SCRIPT", ToJson(hist)>>)
 =============================================================================
